@@ -59,11 +59,27 @@ def gen_unquoted_unicode(rnd) -> str:
     return base[:pos] + rnd.choice(NONASCII) + base[pos:] + (rnd.choice(NONASCII) if rnd.random() < 0.5 else "")
 
 
+_ENGINE_KEYWORDS: set = set()
+
+
+def _engine_keywords() -> set:
+    """every keyword of the engine (DuckDB) and of sqlglot's Snowflake tokenizer: a random name that happens to be one of
+    them (SEMI, ANTI, ASOF, …) cannot be written unquoted in every position, so it is not an 'unquoted identifier' of the
+    generator (said in the evidence: reserved words are not explored)"""
+    if not _ENGINE_KEYWORDS:
+        import duckdb
+        _ENGINE_KEYWORDS.update(r[0].lower() for r in duckdb.connect(":memory:").execute("select keyword_name from duckdb_keywords()").fetchall())
+        from sqlglot.dialects.snowflake import Snowflake
+        _ENGINE_KEYWORDS.update(k.lower() for k in Snowflake.Tokenizer.KEYWORDS if k.replace("_", "").isalnum())
+    return _ENGINE_KEYWORDS
+
+
 def gen_unquoted(rnd) -> str:
+    kws = _engine_keywords()
     while True:
         n = rnd.choice([1, 2, 3, 4, 6, 9])
         s = rnd.choice(UNQ_FIRST) + "".join(rnd.choice(UNQ_REST) for _ in range(n))
-        if s.lower() not in RESERVED and not s.lower().startswith("_fs"):
+        if s.lower() not in RESERVED and s.lower() not in kws and not s.lower().startswith("_fs"):
             return s
 
 
@@ -389,8 +405,8 @@ def gen_names_case(rnd) -> dict:
                 return i
     for name in ("t", "c1", "c2", "c3", "al", "v", "s", "d", "it", "isch"):
         ids[name] = fresh(0.0 if name in ("d", "it", "isch") else 0.4)
-    ids["conn_db"] = Id(gen_unquoted(rnd), False)
-    ids["conn_schema"] = Id(gen_unquoted(rnd), False)
+    ids["conn_db"] = fresh(0.0)        # distinct (after folding) from every other name of the scenario, `d` in particular
+    ids["conn_schema"] = fresh(0.0)
     spell = {n: (recase(rnd, i.text) if not i.quoted else '"' + i.text + '"') for n, i in ids.items()}
     pa = "q" + "".join(rnd.choice(string.ascii_letters) for _ in range(rnd.randint(2, 6))) + "x"
     pb = pa.swapcase() if rnd.random() < 0.5 else pa.upper()
